@@ -253,3 +253,29 @@ Proof.
   specialize (H1 (name, g) (assoc_in _ _ _ Eg)). cbn [fst snd] in H1. rewrite Hd, Hh in H1.
   apply bexp_eqb_eq in H1. rewrite <- (normp_sound h raw), <- (normp_sound g raw), H1. reflexivity.
 Qed.
+
+(* ---- detectors that are a single call of a helper outside the fragment: same helper, same arguments ---- *)
+Fixpoint strs_eqb (a c : list string) : bool :=
+  match a, c with
+  | [], [] => true
+  | x :: a', y :: c' => String.eqb x y && strs_eqb a' c'
+  | _, _ => false
+  end.
+Definition call_shapes_agree_for (names : list string) : bool :=
+  forallb (fun n => match assoc n model_call_shapes, assoc n gen_call_shapes with
+                    | Some m, Some g => strs_eqb m g
+                    | _, _ => false
+                    end) names.
+Definition call_shapes_agree : bool := call_shapes_agree_for (map fst model_call_shapes).
+Lemma strs_eqb_eq : forall a c, strs_eqb a c = true -> a = c.
+Proof.
+  induction a as [|x a IH]; intros [|y c] H; try discriminate H; [reflexivity|].
+  cbn [strs_eqb] in H. apply andb_true_iff in H as [H1 H2]. apply String.eqb_eq in H1. apply IH in H2. congruence.
+Qed.
+Theorem call_shapes_equal : forall names, call_shapes_agree_for names = true ->
+  forall n, In n names -> exists sh, assoc n model_call_shapes = Some sh /\ assoc n gen_call_shapes = Some sh.
+Proof.
+  intros names H n Hin. unfold call_shapes_agree_for in H. rewrite forallb_forall in H. specialize (H n Hin).
+  destruct (assoc n model_call_shapes) as [m|]; [|discriminate H]. destruct (assoc n gen_call_shapes) as [g|]; [|discriminate H].
+  apply strs_eqb_eq in H. subst g. exists m. split; reflexivity.
+Qed.
